@@ -880,6 +880,9 @@ func (e *Engine) strconvParse(fn *ssa.Function, name string, args []Value, st *S
 			}
 			return outs, true
 		}
+		if sa, isS := args[0].(*Str); isS && (name == "strconv.ParseInt" || name == "strconv.ParseUint") {
+			return e.symParseInt(name, sa, args, st, site)
+		}
 		return nil, false
 	}
 	mkErr := func(err error) Value {
